@@ -32,7 +32,8 @@ Judge(I) ==
       ok == res.status = "ok"
       wf(i) == T(i) # {} /\ C(i) # {} /\ T(i) \cap C(i) = {} /\ T(i) \cup C(i) \subseteq Geos(I)
       fails ==
-        (IF res.status \in {"ok", "valueerror"} THEN {} ELSE {"C09:GreedyRaisesOnlyValueError"})
+        (IF res.status \in {"ok", "valueerror", "timeout"} THEN {} ELSE {"C09:GreedyRaisesOnlyValueError"})
+        \cup (IF res.status = "timeout" THEN {"C09:GreedyTerminates"} ELSE {})
         \cup (IF ok /\ \E i \in 1..n : ~Legal(I, T(i), C(i)) THEN {"C01:GreedyLegal"} ELSE {})
         \cup (IF ok /\ \E i \in 1..n : ~TrtSizeOK(I, T(i), C(i)) THEN {"C02:GreedyTreatmentSizeRange"} ELSE {})
         \cup (IF ok /\ \E i \in 1..n : ~CtlSizeOK(I, T(i), C(i)) THEN {"C02:GreedyControlSizeRange"} ELSE {})
